@@ -182,8 +182,35 @@ def run_impl(case):
         r = inspect(d) if os.path.isdir(d) else {'descriptor': 'absent'}
         r['k'] = k
         kills.append(r)
+    # interruptions by an exception (a later step raising at every row of every resource, and the copy of every data
+    # file failing): the generators are torn down in an orderly way, which must not let the descriptor appear either
+    raises = []
+
+    def raising_step(ri, k):
+        cur = [-1]
+
+        def f(rows):
+            cur[0] += 1
+            for j, r in enumerate(rows):
+                if cur[0] == ri and j == k:
+                    raise RuntimeError('injected downstream failure')
+                yield r
+        return f
+    points = [(ri, k) for ri, rows in enumerate(case['pkg']) for k in range(len(rows))]
+    for ri, k in points:
+        d = os.path.join(base, 'x%d_%d' % (ri, k))
+        try:
+            with quiet():
+                Flow(*[list(r) for r in case['pkg']], DF.dump_to_path(d, format=case['format'], add_filehash_to_path=case.get('hashpath', False)),
+                     raising_step(ri, k)).process()
+            raised = False
+        except Exception:
+            raised = True
+        r = inspect(d) if os.path.isdir(d) else {'descriptor': 'absent'}
+        r.update({'res': ri, 'row': k, 'raised': raised})
+        raises.append(r)
     shutil.rmtree(base, ignore_errors=True)
-    return {'ops': ops, 'final': final, 'kills': kills, 'parseable_proper_prefixes': prefix_parse}
+    return {'ops': ops, 'final': final, 'kills': kills, 'raises': raises, 'parseable_proper_prefixes': prefix_parse}
 
 
 def oracle(case, out):
@@ -197,6 +224,12 @@ def oracle(case, out):
         if kk['descriptor'] == 'parseable' and kk['bad']:
             return 'killed before file operation #%d (%s): a parseable datapackage.json is present but %s' % (
                 kk['k'], out['ops'][kk['k']], '; '.join(kk['bad']))
+    for rr in out.get('raises', []):
+        if not rr['raised']:
+            return 'a later step raised at row %d of resource %d but the run returned normally' % (rr['row'], rr['res'])
+        if rr['descriptor'] == 'parseable' and rr['bad']:
+            return 'a later step raised at row %d of resource %d: a parseable datapackage.json is present but %s' % (
+                rr['row'], rr['res'], '; '.join(rr['bad']))
     return None
 
 
